@@ -8,9 +8,14 @@
     §C  exact arithmetic: the scalar-order sum IS the sum, and is ⊥ iff a term is   (group (4))
     §D  the SIMD backends equal the generic backend, cell for cell, over any carrier:
         AVX2 permute / gather / u8 shuffle with NO law about `add`                    (group (1))
+        SSE2 with the single law `add x zero = x`; every dispatcher arm              (group (2))
+    §E  every pipeline computes the window score (composition of §B and §D), no panic (group (6))
+    §F  the rounding-error lemma for a left fold                                     (group (5))
+    §G  non-vacuity
 -/
 import LMV.Lemmas.Score
 import LMV.Lemmas.ScoreAvx2
+import LMV.Lemmas.ScoreSse2
 import LMV.Props.C04
 import Mathlib.Algebra.Ring.Rat
 import Mathlib.Algebra.Order.Monoid.Unbundled.WithTop
@@ -333,6 +338,153 @@ theorem scoreU8_eq_generic (zero : α) (add : α → α → α) (pssm : Mat α K
   apply Avx2.kernelU8_eq_genericRows zero add pssm hK
   intro k j col hk hj hcol
   exact (reads_ok pssm seq a b hW hb hsym k j col hk hj hcol).2
+
+/-- **C01 (2), SSE2 kernel, 16- and 32-column layouts (any multiple of 16).**  With the single law
+    `add x zero = x` (the compare-and-mask trick adds `+0.0` for the `K − 1` symbols that do not
+    match; IEEE `x + (+0.0) = x` for every `x` except `-0.0`, which is never a partial sum of a fold
+    started at `+0.0`), the SSE2 wrapper + kernel returns exactly what the generic code returns.
+    The unpack chain and the store offsets are discharged by `Sse2.sse2_table` (kernel evaluation of
+    the complete 16-column table regenerated from sse2.rs). -/
+theorem scoreSse2_eq_generic (zero : α) (add : α → α → α) (hz : ∀ x, add x zero = x)
+    (pssm : Mat α K) (hC : 16 ∣ C) (seq : Striped C) (a b : Nat) (sc : Scores α C)
+    (hM : 1 ≤ pssm.rows) (hW : pssm.rows - 1 ≤ seq.wrap) (hb : b ≤ seq.data.rows - seq.wrap)
+    (hsym : SymOK K seq) :
+    Sse2.score zero add pssm seq a b sc = scoreRowsGeneric zero add pssm seq a b sc := by
+  unfold Sse2.score
+  apply simdWrapper_eq_generic zero add pssm seq a b sc _ hM hW hb hsym
+  intro d
+  apply Sse2.kernel_eq_genericRows zero add hz pssm hC
+  intro k j col hk hj hcol
+  exact (reads_ok pssm seq a b hW hb hsym k j col hk hj hcol).2
+
+/-- **every arm of the runtime dispatcher (`f32`)** returns what the generic backend returns -/
+theorem dispatchF32_eq_generic (arm : Arm) (zero : α) (add : α → α → α) (hz : ∀ x, add x zero = x)
+    (pssm : Mat α K) (hK : K ≤ 256) (seq : Striped 32) (a b : Nat) (sc : Scores α 32)
+    (hM : 1 ≤ pssm.rows) (hW : pssm.rows - 1 ≤ seq.wrap) (hb : b ≤ seq.data.rows - seq.wrap)
+    (hsym : SymOK K seq) :
+    dispatchF32 arm zero add pssm seq a b sc = scoreRowsGeneric zero add pssm seq a b sc := by
+  cases arm
+  · rfl
+  · exact scoreSse2_eq_generic zero add hz pssm (by decide) seq a b sc hM hW hb hsym
+  · exact scoreF32Avx2_eq_generic zero add pssm hK seq a b sc hM hW hb hsym
+
+/-- **every arm of the runtime dispatcher (`u8`)**: the AVX2 arm is the generic loop run with the
+    saturating lane addition, the other arms ARE the generic loop (with the scalar `+=`).  Whether
+    the two additions agree (they do as long as no window sum exceeds 255) is C08's matter. -/
+theorem dispatchU8_eq_generic (arm : Arm) (zero : α) (add addSat : α → α → α)
+    (pssm : Mat α K) (hK : K ≤ 16) (seq : Striped 32) (a b : Nat) (sc : Scores α 32)
+    (hM : 1 ≤ pssm.rows) (hW : pssm.rows - 1 ≤ seq.wrap) (hb : b ≤ seq.data.rows - seq.wrap)
+    (hsym : SymOK K seq) :
+    dispatchU8 arm zero add addSat pssm seq a b sc =
+      scoreRowsGeneric zero (if arm = Arm.avx2 then addSat else add) pssm seq a b sc := by
+  cases arm
+  · rfl
+  · rfl
+  · exact scoreU8_eq_generic zero addSat pssm hK seq a b sc hM hW hb hsym
+
+/-! ## §E  every pipeline computes the window score -/
+
+theorem symOK_of_inv (N : Nat) (seq : Striped C) (s : List Nat) (inv : Inv N seq s)
+    (hs : ∀ x ∈ s, x < K) (hN : N < K) : SymOK K seq := by
+  intro r c hr hc
+  have e : seq.data.getD r c 0 = seq.data.get r c := rfl
+  rw [e, inv.cell r c (by rw [← inv.rows]; exact hr) hc]
+  exact pad_lt N s hs hN _
+
+/-- what a correct `score_rows_into(pssm, seq, a..b, buf)` returns for the sequence `s` -/
+def RowsSpec (zero : α) (add : α → α → α) (pssm : Mat α K) (N : Nat) (s : List Nat) (C a b : Nat)
+    (res : Except String (Scores α C)) : Prop :=
+  ∃ sc, res = .ok sc ∧
+    if s.length < pssm.rows ∨ b ≤ a then sc.data.rows = 0 ∧ sc.maxIndex = 0
+    else sc.data.rows = b - a ∧ sc.maxIndex = s.length + 1 - pssm.rows ∧
+      ∀ r c, a ≤ r → r < b → c < C →
+        sc.data.getD (r - a) c zero = windowScore zero add pssm N s (c * seqRowsOf C s.length + r)
+
+/-- **C01, all `f32` pipelines and lane counts.**  Let the sequence matrix satisfy the striping
+    invariant for `s` (any striping backend, any configure history — C04), with `wrap ≥ M − 1`,
+    `M ≥ 1`, and let `a..b` end inside the sequence rows.  Then the generic backend (any column
+    count), the SSE2 backend (any multiple of 16 columns: 16 and 32), the AVX2 backend and all
+    three arms of the runtime dispatcher (32 columns) return WITHOUT PANIC the same result, whose
+    cell `(r − a, c)` is the scalar-order window score at position `c·R + r` — identical values
+    on every backend because it is literally the same expression.  The only law used about the
+    arithmetic is `add x zero = x`, and only by the SSE2 kernel. -/
+theorem all_f32_pipelines (zero : α) (add : α → α → α) (hz : ∀ x, add x zero = x) (pssm : Mat α K)
+    (hK : K ≤ 256) (N : Nat) (s : List Nat) (hs : ∀ x ∈ s, x < K) (hN : N < K)
+    (hM : 1 ≤ pssm.rows) (a b : Nat) :
+    (∀ (C : Nat) (_ : 0 < C) (seq : Striped C) (sc0 : Scores α C), Inv N seq s →
+      pssm.rows - 1 ≤ seq.wrap → b ≤ seqRowsOf C s.length →
+      RowsSpec zero add pssm N s C a b (scoreRowsGeneric zero add pssm seq a b sc0)) ∧
+    (∀ (C : Nat) (_ : 0 < C) (_ : 16 ∣ C) (seq : Striped C) (sc0 : Scores α C), Inv N seq s →
+      pssm.rows - 1 ≤ seq.wrap → b ≤ seqRowsOf C s.length →
+      RowsSpec zero add pssm N s C a b (Sse2.score zero add pssm seq a b sc0)) ∧
+    (∀ (seq : Striped 32) (sc0 : Scores α 32), Inv N seq s →
+      pssm.rows - 1 ≤ seq.wrap → b ≤ seqRowsOf 32 s.length →
+      RowsSpec zero add pssm N s 32 a b (Avx2.scoreF32 zero add pssm seq a b sc0) ∧
+      ∀ arm, RowsSpec zero add pssm N s 32 a b (dispatchF32 arm zero add pssm seq a b sc0)) := by
+  have gen : ∀ (C : Nat) (_ : 0 < C) (seq : Striped C) (sc0 : Scores α C), Inv N seq s →
+      pssm.rows - 1 ≤ seq.wrap → b ≤ seqRowsOf C s.length →
+      RowsSpec zero add pssm N s C a b (scoreRowsGeneric zero add pssm seq a b sc0) :=
+    fun C hC seq sc0 inv hW hb => scoreRowsGeneric_spec hC zero add pssm N seq s inv hs hN hW a b hb sc0
+  have hb' : ∀ {C : Nat} (seq : Striped C), Inv N seq s → b ≤ seqRowsOf C s.length →
+      b ≤ seq.data.rows - seq.wrap := by
+    intro C seq inv hb; rw [inv.rows]; omega
+  refine ⟨gen, ?_, ?_⟩
+  · intro C hC h16 seq sc0 inv hW hb
+    rw [scoreSse2_eq_generic zero add hz pssm h16 seq a b sc0 hM hW (hb' seq inv hb)
+      (symOK_of_inv N seq s inv hs hN)]
+    exact gen C hC seq sc0 inv hW hb
+  · intro seq sc0 inv hW hb
+    have hsym := symOK_of_inv N seq s inv hs hN
+    refine ⟨?_, fun arm => ?_⟩
+    · rw [scoreF32Avx2_eq_generic zero add pssm hK seq a b sc0 hM hW (hb' seq inv hb) hsym]
+      exact gen 32 (by decide) seq sc0 inv hW hb
+    · rw [dispatchF32_eq_generic arm zero add hz pssm hK seq a b sc0 hM hW (hb' seq inv hb) hsym]
+      exact gen 32 (by decide) seq sc0 inv hW hb
+
+/-- **C01, `u8` pipelines**: the AVX2 shuffle kernel (hence the AVX2 arm of the dispatcher) computes
+    the window score for the saturating addition, with no law assumed -/
+theorem u8_avx2_pipeline (zero : α) (addSat : α → α → α) (pssm : Mat α K) (hK : K ≤ 16) (N : Nat)
+    (s : List Nat) (hs : ∀ x ∈ s, x < K) (hN : N < K) (hM : 1 ≤ pssm.rows) (a b : Nat)
+    (seq : Striped 32) (sc0 : Scores α 32) (inv : Inv N seq s) (hW : pssm.rows - 1 ≤ seq.wrap)
+    (hb : b ≤ seqRowsOf 32 s.length) :
+    RowsSpec zero addSat pssm N s 32 a b (Avx2.scoreU8 zero addSat pssm seq a b sc0) := by
+  rw [scoreU8_eq_generic zero addSat pssm hK seq a b sc0 hM hW (by rw [inv.rows]; omega)
+    (symOK_of_inv N seq s inv hs hN)]
+  exact scoreRowsGeneric_spec (by decide) zero addSat pssm N seq s inv hs hN hW a b hb sc0
+
+/-- **the values returned, on every `f32` pipeline**: `score` (full scan) then `unstripe()` gives
+    exactly `L + 1 − M` values, value `i` being the window score at position `i`; stated for any
+    `score_rows_into` that agrees with the generic one on the full row range, which §D provides for
+    SSE2, AVX2 and every dispatcher arm. -/
+theorem score_unstripe_any (hC : 0 < C) (zero : α) (add : α → α → α) (pssm : Mat α K) (N : Nat)
+    (seq : Striped C) (s : List Nat) (inv : Inv N seq s) (hs : ∀ x ∈ s, x < K) (hN : N < K)
+    (hM : 1 ≤ pssm.rows) (hW : pssm.rows - 1 ≤ seq.wrap)
+    (rowsInto : Nat → Nat → Scores α C → Except String (Scores α C))
+    (heq : ∀ sc, rowsInto 0 (seq.data.rows - seq.wrap) sc =
+      scoreRowsGeneric zero add pssm seq 0 (seq.data.rows - seq.wrap) sc) :
+    ∃ sc, scoreFull rowsInto seq = .ok sc ∧
+      (unstripe zero sc).length = s.length + 1 - pssm.rows ∧
+      ∀ i, i < s.length + 1 - pssm.rows →
+        (unstripe zero sc)[i]? = some (windowScore zero add pssm N s i) := by
+  have e : scoreFull rowsInto seq = scoreFull (scoreRowsGeneric zero add pssm seq) seq := by
+    unfold scoreFull scoreInto
+    split
+    · rfl
+    · exact heq _
+  rw [e]
+  exact score_unstripe hC zero add pssm N seq s inv hs hN hM hW
+
+/-- instance of `score_unstripe_any`: `ScoringMatrix::score` through any arm of the dispatcher -/
+theorem score_unstripe_dispatch (arm : Arm) (zero : α) (add : α → α → α) (hz : ∀ x, add x zero = x)
+    (pssm : Mat α K) (hK : K ≤ 256) (N : Nat) (seq : Striped 32) (s : List Nat) (inv : Inv N seq s)
+    (hs : ∀ x ∈ s, x < K) (hN : N < K) (hM : 1 ≤ pssm.rows) (hW : pssm.rows - 1 ≤ seq.wrap) :
+    ∃ sc, scoreFull (dispatchF32 arm zero add pssm seq) seq = .ok sc ∧
+      (unstripe zero sc).length = s.length + 1 - pssm.rows ∧
+      ∀ i, i < s.length + 1 - pssm.rows →
+        (unstripe zero sc)[i]? = some (windowScore zero add pssm N s i) :=
+  score_unstripe_any (by decide) zero add pssm N seq s inv hs hN hM hW _
+    (fun sc => dispatchF32_eq_generic arm zero add hz pssm hK seq 0 _ sc hM hW (Nat.le_refl _)
+      (symOK_of_inv N seq s inv hs hN))
 
 end C01
 end LMV
